@@ -253,3 +253,10 @@ let () = Reg.register "c08.gen.reject" (fun inp out ->
         "ok")   (* rejecting a grammar is always allowed by the statement *)
      | _ -> (A "?", "bad:unparsable")) in
   (model, verdict))
+
+(* (?= notX) next to (?= !X) with two different nonterminals X and notX: not mutually exclusive, must be rejected *)
+let () = Reg.register "c08.gen.clash" (fun _ out ->
+  match out with
+  | L [A "rejected"] -> (out, "ok")
+  | L [A "accepted"; _] -> (L [A "rejected"], "bad:non-exclusive-lookahead-set-accepted")
+  | _ -> (L [A "rejected"], "bad:unparsable"))
